@@ -109,6 +109,41 @@ conv!(r0_conv_offset_a32, 5, OffsetArc<S33a32>, Raw<S33a32>, mk_a32());
 conv!(r1_conv_arc_rawu_slice, 5, Arc<[Dt]>, RawU<[Dt]>, mk_slice_n::<2>());
 conv!(r2_conv_arc_rawu_dyn, 5, Arc<dyn Tr>, RawU<dyn Tr>, mk_dyn());
 
+// ---- through UniqueArc and back, and out by value
+h!(q_unique_paths_dt, 5, {
+    let (a, n) = mk_dt();
+    let (st, h) = enter::<Arc<Dt>>(a, n);
+    match Arc::try_unique(h) {
+        Ok(u) => {
+            assert!(st.c == 1);
+            let back = u.shareable();
+            st.alive(1);
+            // out by value: the block goes back once, the value is destroyed once by its new owner
+            let v = Arc::try_unwrap(back).ok().expect("sole owner");
+            assert!(ledger_zero() && block_of(st.block).is_none() && n_live() == st.live0 - 1, "value destroyed or block not returned on the move-out path");
+            drop(v);
+            assert!(ledger_is(0, 1));
+        }
+        Err(back) => {
+            assert!(st.c != 1);
+            st.alive(st.c);
+            forget(back);
+        }
+    }
+    st.covers();
+});
+h!(q_unique_new_drop_dt, 5, {
+    let u = UniqueArc::new(Dt::new(0, kani::any()));
+    assert!(n_live() == 1 && ledger_zero());
+    drop(u);
+    assert!(ledger_is(0, 1) && n_live() == 0);
+    let u = UniqueArc::new(Dt::new(1, kani::any()));
+    let v = UniqueArc::into_inner(u);
+    assert!(n_live() == 0 && drops(1) == 0, "into_inner must release the block and hand the value out undestroyed");
+    drop(v);
+    assert!(drops(1) == 1);
+});
+
 // ------------------------------------------------------------------ bounded symbolic histories (DESIGN 4.2)
 // Two slots holding handles of symbolic kinds to ONE allocation; each step is a symbolic choice among
 // clone-into-the-other-slot / convert-in-place / release / uniqueness probe. After every step the count
